@@ -1,5 +1,275 @@
 import PV.C17.Model
 import PV.C17.Spec
 import PV.C17.Lemmas
+/-
+  C17 — property theorems.  Helper lemmas live in `PV/C17/Lemmas.lean`.
+-/
 namespace PV.C17
+open PV.Dec PV.C17.Spec
+
+/-! ### underscore stripping -/
+
+/-- `strip_underlines` succeeds exactly on texts whose underscores all stand between two digits,
+    and then returns the text without them. -/
+theorem strip_underlines_spec (s t : List Nat) :
+    stripUnderlines s = some t ↔ (UnderscoresOk s ∧ t = s.filter (· ≠ 95)) := by
+  unfold stripUnderlines UnderscoresOk
+  rw [stripGo_spec]
+  cases s with
+  | nil => simp [pairsOk]
+  | cons a rest =>
+    simp [pairsOk, adjOk_def, List.getLast?_cons_cons]
+    have : isDigit 0 = false := by decide
+    simp [this]
+    constructor
+    · rintro ⟨⟨h1, h2⟩, h3, h4⟩; exact ⟨⟨h2, h1, h3⟩, h4⟩
+    · rintro ⟨⟨h2, h1, h3⟩, h4⟩; exact ⟨⟨h1, h2⟩, h3, h4⟩
+example : stripUnderlines [49, 95, 48, 46, 53] = some [49, 48, 46, 53] := by decide
+example : stripUnderlines [49, 95, 46, 53] = none := by decide
+
+/-! ### repr: special values and shape -/
+
+/-- NaN and the infinities render as Python's `nan`, `inf`, `-inf`. -/
+theorem repr_special (bits : Nat) (h : isFinite bits = false) :
+    toString bits = if isNan bits then [110, 97, 110]
+      else (if isNeg bits then [45] else []) ++ [105, 110, 102] := by
+  have hinf : isNan bits = false → isInf bits = true := by
+    simp only [isFinite, isNan, isInf] at *
+    simp at h
+    simp [h]
+  unfold toString shortestFixedL
+  simp only [h]
+  by_cases hn : isNan bits = true
+  · simp [hn, toLower]
+  · simp only [Bool.not_eq_true] at hn
+    simp only [hn, hinf hn]
+    by_cases hs : isNeg bits = true <;> simp [hs, toLower]
+
+
+example : toString 0x7FF8000000000000 = [110, 97, 110] := by decide +kernel
+example : toString 0xFFF0000000000000 = [45, 105, 110, 102] := by decide +kernel
+
+/-- Shape of the repr-style rendering of a finite double: exponent notation with a signed
+    exponent of at least two digits when the decimal exponent is outside `[-4, 16)`, otherwise
+    fixed notation with a `.` and at least one digit on both sides. -/
+theorem repr_shape (bits : Nat) (hf : isFinite bits = true) :
+    (¬ ((shortest bits).2 < 16 ∧ (shortest bits).2 > -5) → ExpShape (toString bits)) ∧
+    (((shortest bits).2 < 16 ∧ (shortest bits).2 > -5) → (isInteger bits = false → FracDigits bits) →
+      FixedShape (toString bits)) := by
+  unfold toString
+  simp only [hf, if_true]
+  rw [show (shortestExpL bits) = ((shortestExpL bits).1, (shortestExpL bits).2) from rfl]
+  simp only [shortestExpL_snd]
+  constructor
+  · intro h
+    simp only [h, if_false]
+    have := exp_shape bits
+    rw [shortestExpL_snd] at this
+    exact this
+  · intro h hfd
+    simp only [h]
+    by_cases hi : isInteger bits = true
+    · simp only [hi, if_true]; exact toFixedL_one_shape bits hf
+    · simp only [hi]; exact shortestFixedL_shape bits hf (hfd (by simpa using hi))
+
+
+-- 1e16 → "1e+16", 1e15 → "1000000000000000.0", 1.5e-7 → "1.5e-07", 0.0001 → "0.0001"
+example : toString 0x4341C37937E08000 = [49, 101, 43, 49, 54] := by decide +kernel
+example : toString 0x430C6BF526340000 = [49,48,48,48,48,48,48,48,48,48,48,48,48,48,48,48,46,48] := by decide +kernel
+example : toString 0x3E8421F5F40D8376 = [49, 46, 53, 101, 45, 48, 55] := by decide +kernel
+example : FracDigits 0x3F1A36E2EB1C432D := by unfold FracDigits; decide +kernel
+
+/-! ### hexadecimal text -/
+
+/-- `to_hex` prints exactly `float.hex()` for every double that is not a non-zero subnormal. -/
+theorem hex_eq_py_partial (bits : Nat) (h : expField bits ≠ 0 ∨ fracField bits = 0) :
+    toHex bits = pyHex bits := by
+  have hf := fracField_lt bits
+  unfold toHex pyHex integerDecode
+  simp only [isZero, isInf, isNan]
+  by_cases he : expField bits = 0
+  · have hz : fracField bits = 0 := by omega
+    simp [he, hz]
+  · by_cases h2 : expField bits = 2047
+    · by_cases hz : fracField bits = 0 <;> simp [h2, hz, sInf, sNan]
+    · have hdiv : (fracField bits + 2 ^ 52) / 2 ^ 52 = 1 := by omega
+      have hmod : (fracField bits + 2 ^ 52) % 2 ^ 52 = fracField bits := by omega
+      have h1 : hexNat 1 = [49] := by decide
+      simp only [he, if_false, hdiv, hmod, h1, hex13_eq _ hf, showSigned]
+      have : ((expField bits : Int) - 1075 + 52) = (expField bits : Int) - 1023 := by omega
+      simp [this, he, h2]
+
+
+/-- The full statement (`to_hex` = `float.hex()` for every double) fails on subnormals: the
+    doubled mantissa of `integer_decode` is printed with exponent `-1023`. -/
+def hex_eq_py_full : Prop := ∀ bits, toHex bits = pyHex bits
+
+theorem hex_eq_py_fails : ¬ hex_eq_py_full := fun h => absurd (h 1) (by decide +kernel)
+
+example : toHex 0x3FF8000000000000 = pyHex 0x3FF8000000000000 := by decide +kernel
+-- 5e-324: "0x0.0000000000002p-1023" instead of "0x0.0000000000001p-1022"
+example : toHex 1 = [48,120,48,46,48,48,48,48,48,48,48,48,48,48,48,48,50,112,45,49,48,50,51] := by decide +kernel
+
+/-! ### exponent suffix -/
+
+/-- The exponent suffix written by `to_string`, `format_exponent` and `format_general`
+    (`{exponent:+#03}`) is an explicit sign followed by at least two digits spelling `|e|`. -/
+theorem exponent_two_digits (e : Int) :
+    ∃ sgn ds, expSuffix e = sgn :: showDigits ds ∧ (sgn = 43 ∨ sgn = 45) ∧ 2 ≤ ds.length ∧
+      (∀ d ∈ ds, d < 10) ∧ (sgn = 45 ↔ e < 0) ∧ ofDigits ds = e.natAbs :=
+  expSuffix_shape e
+
+/-- it is Python's/C's exponent spelling -/
+theorem exponent_eq_py (e : Int) : expSuffix e = pyExp e := expSuffix_eq_pyExp e
+
+/-- and the parser's exponent reader inverts it -/
+theorem exponent_reads_back (e : Int) : parseExponent (101 :: expSuffix e) = some e :=
+  parseExponent_expSuffix e
+
+example : expSuffix 5 = [43, 48, 53] := by decide +kernel
+example : expSuffix (-324) = [45, 51, 50, 52] := by decide +kernel
+
+/-! ### printf-style renderers -/
+
+/-- `format_fixed` is C's `%.{prec}f` / `%#.{prec}f` as Python prints it. -/
+theorem format_fixed_eq_printf (prec bits : Nat) (upper alt : Bool)
+    (h : isFinite bits = true ∨ isNeg bits = false) :
+    formatFixed prec bits upper alt = cPrintfF prec bits upper alt := by
+  unfold formatFixed cPrintfF
+  by_cases hf : isFinite bits = true
+  · simp only [hf, if_true, Bool.not_true, Bool.false_eq_true, if_false]
+    unfold toFixedL decimalPointOrEmpty
+    simp only [finite_not_nan hf, finite_not_inf hf, Bool.false_eq_true, if_false]
+    generalize List.replicate (prec + 1 - (natDigits (fixedInt bits prec)).length) 0 ++
+      natDigits (fixedInt bits prec) = ds
+    by_cases hp : prec = 0
+    · subst hp; cases alt <;> simp [showDigits]
+    · have : 0 < prec := by omega
+      simp [hp, this]
+  · have hs : isNeg bits = false := by rcases h with h | h; exact absurd h hf; exact h
+    simp only [Bool.not_eq_true] at hf
+    simp only [hf, Bool.false_eq_true, if_false, Bool.not_false, if_true]
+    exact special_eq bits upper hf hs
+
+/-- `format_exponent` is C's `%.{prec}e` / `%#.{prec}e` as Python prints it. -/
+theorem format_exponent_eq_printf (prec bits : Nat) (upper alt : Bool)
+    (h : isFinite bits = true ∨ isNeg bits = false) :
+    formatExponent prec bits upper alt = cPrintfE prec bits upper alt := by
+  unfold formatExponent cPrintfE
+  by_cases hf : isFinite bits = true
+  · simp only [hf, if_true, Bool.not_true, Bool.false_eq_true, if_false]
+    unfold toExpL decimalPointOrEmpty eChar
+    have hl := expDigits_length bits prec
+    generalize expDigits bits prec = ed at *
+    obtain ⟨ds, x⟩ := ed
+    simp only at hl ⊢
+    rw [expSuffix_eq_pyExp]
+    match ds, hl with
+    | d :: rest, hl =>
+      simp only [List.length_cons] at hl
+      by_cases hp : prec = 0
+      · subst hp
+        have : rest = [] := by cases rest with
+          | nil => rfl
+          | cons a b => simp at hl
+        subst this
+        cases alt <;> cases upper <;> simp [showDigits]
+      · have : 0 < prec := by omega
+        cases upper <;> simp [hp, this, showDigits]
+  · have hs : isNeg bits = false := by rcases h with h | h; exact absurd h hf; exact h
+    simp only [Bool.not_eq_true] at hf
+    simp only [hf, Bool.false_eq_true, if_false, Bool.not_false, if_true]
+    exact special_eq bits upper hf hs
+
+
+-- '%.2f' % 2.675 = "2.67" (the double is below 2.675), '%.0f' % 2.5 = "2", '%#.0e' % 5.0 = "5.e+00"
+example : formatFixed 2 0x4005666666666666 false false = [50, 46, 54, 55] := by decide +kernel
+example : formatFixed 0 0x4004000000000000 false false = [50] := by decide +kernel
+example : formatExponent 0 0x4014000000000000 false true = [53, 46, 101, 43, 48, 48] := by decide +kernel
+
+/-- `format_general` (with `always_shows_fract = false`) is C's `%.{prec}g` / `%#.{prec}g` for every
+    precision ≥ 1 and every non-negative double: same `e`/`f` decision (`X < -4 ∨ X ≥ P`), same
+    digits, same removal of trailing zeros and of a trailing point. -/
+theorem general_decision_eq_printf (prec bits : Nat) (upper alt : Bool) (hp : 1 ≤ prec) (hs : isNeg bits = false) :
+    formatGeneral prec bits upper alt false = cPrintfG prec bits upper alt := by
+  unfold formatGeneral cPrintfG
+  by_cases hf : isFinite bits = true
+  · have hp0 : ¬ prec = 0 := by omega
+    simp only [hf, if_true, Bool.not_true, Bool.false_eq_true, if_false, hp0, hs]
+    unfold toExpL
+    have hl := expDigits_length bits (prec - 1)
+    generalize expDigits bits (prec - 1) = ed at *
+    obtain ⟨ds, x⟩ := ed
+    simp only at hl ⊢
+    simp only [hs, Bool.false_eq_true, if_false, List.nil_append, Int.add_zero]
+    match ds, hl with
+    | d :: rest, hl =>
+      simp only [List.length_cons] at hl
+      by_cases hc : x < -4 ∨ x ≥ (prec : Int)
+      · have hc' : ¬ (x < (prec : Int) ∧ x ≥ -4) := by omega
+        simp only [hc, hc', if_true, if_false]
+        rw [expSuffix_eq_pyExp]
+        unfold decimalPointOrEmpty eChar
+        by_cases h1 : prec - 1 = 0
+        · have : rest = [] := by
+            cases rest with
+            | nil => rfl
+            | cons a b => simp at hl; omega
+          subst this
+          have e1 : ([48 + d] : List Nat) = showDigits [d] := rfl
+          simp only [h1, beq_self_eq_true, if_true]
+          rw [show List.take (prec + 1) [48 + d] = [48 + d] by
+            cases prec with
+            | zero => omega
+            | succ n => simp]
+          rw [e1, maybeRemove_nopoint]
+          cases alt <;> cases upper <;> simp [showDigits, dropTrailingZeroDigits]
+        · have hb : ((prec - 1 == 0) = false) := by simpa using h1
+          simp only [hb, Bool.false_eq_true, if_false, h1, false_and]
+          have ht : List.take (prec + 1) ((48 + d) :: 46 :: showDigits rest) = (48 + d) :: 46 :: showDigits rest := by
+            apply List.take_of_length_le
+            simp [showDigits]; omega
+          rw [ht]
+          have := maybeRemove_point [d] rest alt
+          simp only [showDigits, List.map_cons, List.map_nil, List.cons_append, List.nil_append] at this
+          simp only [showDigits] at *
+          rw [this]
+          cases alt <;> cases upper <;> simp [showDigits]
+          all_goals (split <;> simp_all)
+      · have hc' : (x < (prec : Int) ∧ x ≥ -4) := by omega
+        simp only [hc, hc', if_true, if_false, and_self]
+        unfold toFixedL decimalPointOrEmpty
+        simp only [finite_not_nan hf, finite_not_inf hf, hs, Bool.false_eq_true, if_false, List.nil_append]
+        generalize ((prec : Int) - 1 - x).toNat = fprec
+        generalize List.replicate (fprec + 1 - (natDigits (fixedInt bits fprec)).length) 0 ++
+          natDigits (fixedInt bits fprec) = fds
+        by_cases h0 : fprec = 0
+        · subst h0
+          simp only [beq_self_eq_true, if_true, Nat.sub_zero, List.take_length, List.drop_length,
+            List.append_nil, true_and]
+          rw [maybeRemove_nopoint]
+          cases alt <;> simp [showDigits, dropTrailingZeroDigits]
+        · have hb : ((fprec == 0) = false) := by simpa using h0
+          simp only [hb, Bool.false_eq_true, if_false, h0, false_and, List.append_nil]
+          rw [maybeRemove_point]
+          cases alt <;> simp
+          all_goals (split <;> simp_all [showDigits])
+  · simp only [Bool.not_eq_true] at hf
+    simp only [hf, Bool.false_eq_true, if_false, Bool.not_false, if_true]
+    exact special_eq bits upper hf hs
+
+
+-- '%.3g' % 100000.0 = "1e+05", '%.6g' % 100000.0 = "100000", '%#.3g' % 1.0 = "1.00"
+example : formatGeneral 3 0x40F86A0000000000 false false false = [49, 101, 43, 48, 53] := by decide +kernel
+example : formatGeneral 6 0x40F86A0000000000 false false false = [49, 48, 48, 48, 48, 48] := by decide +kernel
+example : formatGeneral 3 0x3FF0000000000000 false true false = [49, 46, 48, 48] := by decide +kernel
+
+/-- The full statement (every precision 0..20) fails at precision 0: C treats it as 1,
+    `format_general` does not (its callers substitute 1 themselves). -/
+def general_eq_printf_full : Prop :=
+  ∀ prec bits upper alt, isNeg bits = false → formatGeneral prec bits upper alt false = cPrintfG prec bits upper alt
+
+theorem general_precision0_fails : ¬ general_eq_printf_full :=
+  fun h => absurd (h 0 0x4014000000000000 false false rfl) (by decide +kernel)
+
 end PV.C17
